@@ -91,12 +91,28 @@ class Gene(Base):
         self._reaction = set()
 
 
+class Rule(S):
+    """A parsed rule: a mutable object (rename_genes / remove_genes edit it in place) that says its text."""
+
+    def __init__(self, text=""):
+        self.text = text
+
+    def to_string(self, names=None):
+        return self.text
+
+    def __str__(self):
+        return self.text
+
+    def copy(self):
+        return Rule(self.text)
+
+
 class Rxn(Base):
     def __init__(self, id=None, name="", subsystem="", lower_bound=0.0, upper_bound=None):
         self.id, self.name, self.subsystem = id, name, subsystem
         self._lower_bound, self._upper_bound = lower_bound, 1000.0 if upper_bound is None else upper_bound
         self._metabolites: Dict = {}
-        self._gpr = ""
+        self._rule = Rule("")
         self.notes: Dict = {}
         self.annotation: Dict = {}
         self._model = None
@@ -148,14 +164,32 @@ class Rxn(Base):
             m._reaction.add(self)
 
     @property
+    def _gpr(self):
+        return self._rule.text
+
+    @_gpr.setter
+    def _gpr(self, v):
+        self._rule = v if isinstance(v, Rule) else Rule(v)
+
+    @property
+    def gpr(self):
+        return self._rule
+
+    @gpr.setter
+    def gpr(self, v):
+        if not isinstance(v, Rule):
+            raise TypeError("gpr must be a rule object")
+        self._rule = v
+
+    @property
     def gene_reaction_rule(self):
-        return self._gpr
+        return self._rule.text
 
     @gene_reaction_rule.setter
     def gene_reaction_rule(self, v):
         if not isinstance(v, str):
             raise TypeError("rule must be a string")
-        self._gpr = v
+        self._rule = Rule(v)
 
     @property
     def genes(self):
@@ -240,11 +274,11 @@ def _set_objective(it_, ev, c, args, kwargs):
         model._objective[r.id] = model._objective.get(r.id, 0) + k
 
 
-def build(named: bool = True) -> Model:
+def build(named: bool = True, objective: bool = True) -> Model:
     m = Model("iJO_demo" if named else None, name="demo model" if named else None)
     glc = Met("glc__D_e", formula="C6H12O6", name="D-Glucose", charge=0, compartment="e")
     g6p = Met("g6p_c", formula="C6H11O9P", name="Glucose 6-phosphate", charge=-2, compartment="c")
-    h = Met("h_c", formula="H", name="", charge=1, compartment="c")
+    h = Met("h_c", formula="H", name="", charge=0.5, compartment="c")
     x = Met("x_c", compartment="c")
     g6p.notes = {"curated": True, "refs": ["PMID:1", "PMID:2"]}
     g6p.annotation = {"chebi": ["CHEBI:4170", "CHEBI:10"], "kegg.compound": "C00092"}
@@ -275,7 +309,7 @@ def build(named: bool = True) -> Model:
             r.notes = {"confidence": 3, "evidence": {"level": "high", "sources": ["a", "b"], "reviewer": None}, "flags": [None, 1, True]}
             r.annotation = {"rhea": ["RHEA:1", "RHEA:2"], "ec-code": "2.7.1.199"}
         m.add_reactions([r])
-        if coef:
+        if coef and objective:
             m._objective[rid] = coef
     m._compartments = {"c": "cytosol", "e": ""}
     m.notes = {"created": "2020", "tags": ["a", "b"]}
@@ -353,6 +387,9 @@ def check_roundtrip(ctx, rule: str) -> None:
         return isinstance(args[0], types) if types else False
 
     stubs["isinstance"] = _isinstance
+    for mod in ("cobra.core.gene", "cobra.core", "cobra"):
+        stubs[f"{mod}.GPR.from_string"] = lambda it_, ev, c, a, k: Rule(a[0]) if isinstance(a[0], str) else (_ for _ in ()).throw(EvalRaise("TypeError", c))
+        stubs[f"{mod}.GPR"] = lambda it_, ev, c, a, k: Rule("")
 
     def interp():
         it = Interp(prog, (S,), follow, stubs, globals_={"str": str, "float": float, "bool": bool, "list": list}, max_depth=10)
@@ -369,10 +406,10 @@ def check_roundtrip(ctx, rule: str) -> None:
 
     problems: List[str] = []
     n_sc = 0
-    for named in (True, False):
+    for named, objective in ((True, True), (False, True), (True, False)):
         for sort in (False, True):
-            what = f"{'a named' if named else 'an unnamed'} model, sort={sort}"
-            m = build(named)
+            what = f"{'a named' if named else 'an unnamed'} model{'' if objective else ' without objective'}, sort={sort}"
+            m = build(named, objective)
             before = say(m, False)
             got = run(f"model_to_dict({what})", to_d, [m], {"sort": sort})
             if got[0] == "raise" or not isinstance(got[1], dict):
@@ -427,8 +464,15 @@ def check_roundtrip(ctx, rule: str) -> None:
                                 if id(v) in seen and shared is None:
                                     shared = f"{attr} of {x!r} ({tag} load) is the very object that is {seen[id(v)]}"
                                 seen.setdefault(id(v), f"{attr} of {x!r} ({tag} load)")
+                rules_seen: Dict[int, str] = {}
+                for tag, mm in (("first", a), ("second", b)):
+                    for x in mm.reactions:
+                        if id(x._rule) in rules_seen and shared is None:
+                            shared = f"the rule object of {x!r} ({tag} load) is the very object that is {rules_seen[id(x._rule)]}"
+                            attr = "rule"
+                        rules_seen.setdefault(id(x._rule), f"the rule of {x!r} ({tag} load)")
                 if shared:
-                    problems.append(f"loaded objects share a mutable container: {shared} - a module-level default handed out by reference; editing one object's {attr} edits the others ({what})")
+                    problems.append(f"loaded objects share a mutable container: {shared} - one object handed out by reference to several owners (a module-level default, a cache); editing one object's {attr} edits the others ({what})")
             n_sc += 1
     if problems:
         ctx.bad(rule, from_d if any("model_from_dict" in p or "round trip" in p for p in problems[:1]) else to_d, "dict round trip", problems[0] + (f" (+{len(problems) - 1} more)" if len(problems) > 1 else ""))
